@@ -20,7 +20,8 @@ import time
 import pyrtl
 from pyrtl.rtllib import muxes, barrel, libutils
 
-RULE = ('configurations of mux/select/enum_mux/sparse_mux/prioritized_mux/MultiSelector/demux/'
+RULE = ('[cross family: every helper also applied to wire_struct/wire_matrix instances and components, compared '
+        'with the helper on the equivalent plain wire] configurations of mux/select/enum_mux/sparse_mux/prioritized_mux/MultiSelector/demux/'
         'barrel_shifter/bitfield_update(_set)/match_bitpattern/chop/partition_wire/wire_struct/'
         'wire_matrix (select widths 1-4, input counts incl. non powers of two, default present/absent, '
         'slice bounds from {None,-n-1..n+1}, patterns over {0,1,?,a,b,_,space} up to length 8, schemas '
@@ -631,12 +632,100 @@ def b_wrap(c, P):
     cls = sch_cls(c['sch'])
     a, b = P[0], P[1]
     inst = cls(**{cls._class_name: a}) if c['sch'][0] == 'S' else cls(values=[a])
-    return [wrap_apply(c['op'], inst, b), wrap_apply(c['op'], a, b)]
+    return ([wrap_apply(c['op'], inst, b)], [wrap_apply(c['op'], a, b)])
 
 
 def o_wrap(c, ws, env):
     return [ANY, ANY]
 
+
+# ---- cross family: every bit-manipulation helper applied to a wire_struct / wire_matrix instance
+# (WrappedWireVector; len() of an instance is its COMPONENT COUNT) or to one of its components,
+# against the same helper applied to the equivalent plain wire (implementation-only, pairwise)
+def sch_node(s, path):
+    lo = 0
+    for i in path:
+        kids = sch_kids(s)
+        lo += sum(sch_bw(k) for k in kids[i + 1:])
+        s = kids[i]
+    return s, lo
+
+
+def cross_apply(c, P, t):
+    op = c['op']
+    m = c['m']
+    if op == 'bfu':
+        k = len(py_indices(m, c['s'], c['e']))
+        return [pyrtl.bitfield_update(t, c['s'], c['e'], P[1][0:k])]
+    if op == 'bfus':
+        return [pyrtl.bitfield_update_set(t, {(0, 1): P[1][0:1], (m - 1, None): P[1][1:2]})]
+    if op == 'chop':
+        return list(pyrtl.chop(t, *c['widths']))
+    if op == 'part':
+        return list(libutils.partition_wire(t, c['size']))
+    if op == 'mbp':
+        mt, fields = pyrtl.match_bitpattern(t, c['pat'])
+        return [mt] + list(fields)
+    if op == 'mux':
+        return [pyrtl.mux(P[2], t, P[1])]
+    if op == 'select':
+        return [pyrtl.select(P[2], P[1], t)]
+    if op == 'barrel':
+        return [barrel.barrel_shifter(t, P[1], P[2], P[3])]
+    raise ValueError(op)
+
+
+def b_cross(c, P):
+    cls = sch_cls(c['sch'])
+    inst = cls(**{cls._class_name: P[0]}) if c['sch'][0] == 'S' else cls(values=[P[0]])
+    s = c['sch']
+    t = inst
+    for i in c['path']:
+        t = getattr(t, 'f%d' % i) if s[0] == 'S' else t[i]
+        s = sch_kids(s)[i]
+    node, lo = sch_node(c['sch'], c['path'])
+    plain = P[0] if not c['path'] else P[0][lo:lo + sch_bw(node)]
+    return (cross_apply(c, P, t), cross_apply(c, P, plain))
+
+
+def gen_cross(rng, tier):
+    out = []
+    schemas = [('S', [('L', 2), ('L', 1)]), ('S', [('L', 1), ('L', 2), ('L', 1)]), ('M', ('L', 1), 3),
+               ('M', ('L', 2), 2), ('S', [('S', [('L', 1), ('L', 2)]), ('L', 1)]), ('M', ('S', [('L', 1), ('L', 1)]), 2),
+               ('S', [('L', 3)]), ('S', [('M', ('L', 1), 2), ('L', 2)])]
+    if tier != 'quick':
+        schemas += [('S', [('L', 4), ('L', 1)]), ('M', ('M', ('L', 1), 2), 2), ('M', ('L', 1), 4)]
+    for sch in schemas:
+        paths = [[]] + [[i] for i in range(len(sch_kids(sch)))]
+        first = sch_kids(sch)[0]
+        if first[0] != 'L':
+            paths.append([0, len(sch_kids(first)) - 1])
+        for path in paths:
+            node, lo = sch_node(sch, path)
+            m = sch_bw(node)
+            n = sch_bw(sch)
+            kind = {'L': 'leaf-component', 'S': 'wire_struct', 'M': 'wire_matrix'}[node[0]]
+            base = {'fam': 'cross', 'sch': sch, 'path': path, 'm': m, 'target': kind}
+            ops = []
+            for s, e in [(0, 1), (1, None), (None, -1), (-1, None), (None, None)]:
+                if py_indices(m, s, e):
+                    ops.append(dict(op='bfu', s=s, e=e, ws=[n, n]))
+            if m >= 2:
+                ops.append(dict(op='bfus', ws=[n, n]))
+                ops.append(dict(op='chop', widths=[1, m - 1], ws=[n]))
+                ops.append(dict(op='part', size=1, ws=[n]))
+            ops.append(dict(op='chop', widths=[m], ws=[n]))
+            ops.append(dict(op='part', size=m, ws=[n]))
+            ops.append(dict(op='mbp', pat=('1a0b?a1b')[:m], ws=[n]))
+            ops.append(dict(op='mux', ws=[n, n, 1]))
+            ops.append(dict(op='select', ws=[n, n, 1]))
+            ops.append(dict(op='barrel', ws=[n, 1, 1, 2]))
+            for o in ops:
+                out.append(dict(base, **o))
+    return out
+
+
+PAIRWISE = ('wrapped', 'cross')
 
 FAMS = {
     'select': (b_select, q_select, o_select), 'mux': (b_mux, q_mux, o_mux),
@@ -647,6 +736,7 @@ FAMS = {
     'match_bitpattern': (b_mbp, q_mbp, o_mbp), 'chop': (b_chop, q_chop, o_chop),
     'partition_wire': (b_part, q_part, o_part), 'struct_slice': (b_sslice, q_sslice, o_sslice),
     'struct_concat': (b_sconcat, q_sconcat, o_sconcat), 'wrapped': (b_wrap, None, o_wrap),
+    'cross': (b_cross, None, o_wrap),
 }
 
 
@@ -671,13 +761,18 @@ def run_group(args):
         snap_logic = set(block.logic)
         snap_wires = set(block.wirevector_set)
         try:
-            wires = [pyrtl.as_wires(w) for w in FAMS[c['fam']][0](c, P)]
+            built = FAMS[c['fam']][0](c, P)
+            split = None
+            if isinstance(built, tuple):           # (results on the wrapped object, results on the plain wire)
+                split = len(built[0])
+                built = list(built[0]) + list(built[1])
+            wires = [pyrtl.as_wires(w) for w in built]
             names = []
             for k, w in enumerate(wires):
                 o = pyrtl.Output(len(w), 'o%d_%d' % (ci, k))
                 o <<= w
                 names.append(o.name)
-            res.append({'err': None, 'widths': [len(w) for w in wires], 'names': names})
+            res.append({'err': None, 'widths': [len(w) for w in wires], 'names': names, 'split': split})
         except Exception as e:  # roll the block back to before this configuration
             block.logic = snap_logic
             for w in list(block.wirevector_set - snap_wires):
@@ -717,11 +812,16 @@ def run_group(args):
             if r['err'] is not None:
                 bad = {'kind': 'raises', 'error': r['err'], 'msg': r['msg'], 'expected_first': first}
             else:
-                if c['fam'] == 'wrapped':
-                    for x, row in enumerate(r['tab']):
-                        if row[0] != row[1] or r['widths'][0] != r['widths'][1]:
-                            bad = {'kind': 'value', 'pool': envs[x], 'expected': [row[1]], 'got': [row[0]]}
-                            break
+                if c['fam'] in PAIRWISE:
+                    k = r['split']
+                    if 2 * k != len(r['widths']) or r['widths'][:k] != r['widths'][k:]:
+                        bad = {'kind': 'value', 'what': 'number / bitwidths of results differ from the plain wire',
+                               'expected': r['widths'][k:], 'got': r['widths'][:k]}
+                    else:
+                        for x, row in enumerate(r['tab']):
+                            if row[:k] != row[k:]:
+                                bad = {'kind': 'value', 'pool': envs[x], 'expected': row[k:], 'got': row[:k]}
+                                break
                 else:
                     for x, row in enumerate(r['tab']):
                         exp = orc(c, ws, envs[x])
@@ -1154,7 +1254,7 @@ def gen_wrap(rng, tier):
     return out
 
 
-GENS = [('select', gen_select), ('mux', gen_mux), ('prioritized_mux', gen_pmux), ('sparse_mux', gen_sparse),
+GENS = [('cross', gen_cross), ('select', gen_select), ('mux', gen_mux), ('prioritized_mux', gen_pmux), ('sparse_mux', gen_sparse),
         ('enum_mux', gen_enum), ('MultiSelector', gen_multi), ('demux', gen_demux), ('barrel_shifter', gen_barrel),
         ('bitfield_update', gen_bfu), ('bitfield_update_set', gen_bfus), ('match_bitpattern', gen_mbp),
         ('chop', gen_chop), ('partition_wire', gen_part), ('struct', gen_struct),
@@ -1166,6 +1266,10 @@ def signature(c, bad):
     fam = c['fam']
     if fam == 'bitfield_update' and bad['kind'] == 'raises' and c['nv'][0] == 'I' and c['tr']:
         return 'bitfield_update:int-newvalue-too-large-with-truncating-raises'
+    if fam == 'cross':      # which helper mishandles which kind of wrapped object
+        return 'cross:%s-on-%s' % ({'bfu': 'bitfield_update', 'bfus': 'bitfield_update_set', 'part': 'partition_wire',
+                                    'mbp': 'match_bitpattern', 'barrel': 'barrel_shifter'}.get(c['op'], c['op']),
+                                   c['target'])
     return '%s:%s' % (fam, bad['kind'])
 
 
